@@ -8,7 +8,7 @@ import json
 from tie.framework import g_bool, g_list, g_opt, g_pair, g_str, g_Z, run_impl_parallel
 
 PROP = "C02"
-IMPORTS = ("From JV Require Import Lib.Base Model.TyVal Model.Scalar Model.Ty Model.TyLoader Spec.C02Group Corr.C02Judge.")
+IMPORTS = ("From JV Require Import Lib.Base Model.TyVal Model.Scalar Model.Ty Model.C02Ext Model.TyLoader Spec.C02Group Corr.C02Judge.")
 RULE = ("a case = (type hint, input, channel). Type hints: every hint of the grammar str|int|float|bool|None|Any|Literal|Enum|"
         "Union|List|Dict[str|int,.]|Tuple[..]|Tuple[.,...]|Set up to nesting depth 2 over a small leaf alphabet (quick: a seeded "
         "sample of them; thorough: all of depth <=1 and a larger sample) plus seeded random hints up to depth 4. Inputs per hint: "
@@ -18,6 +18,12 @@ RULE = ("a case = (type hint, input, channel). Type hints: every hint of the gra
         "'', ...) at top level and as items. Side observations per case: the same input under every member of a top-level "
         "Union, every item under the item type (Python-object containers), and the same input under the hint with the members "
         "of one Union node (any depth) permuted — all permutations, capped at 6 (quick) / 30 (thorough) variants per case. "
+        "Ext cases (Model/C02Ext.v): Unions of 2-3 members of which at least one is a registered/restricted type (PositiveFloat, "
+        "PositiveInt, NonNegativeInt, ClosedUnitInterval, decimal.Decimal; their adapt_typehints behaviour per value is recorded "
+        "from the real run) with ints beyond the float range, non-numeric strings, numeric text, bools, lists ..., every member "
+        "alone and every permutation; plain scalar / Optional / Union / Literal hints with every conforming declared default "
+        "(0, 1, 2, 0.0, 1.0, 2.0, False, True, 'a', '1', 'null', 'true') x every scalar value incl. equal-but-other-kind ones "
+        "(True vs 1 vs 1.0, 0 vs False) as typed objects and as text. "
         "Group cases: a parser with nested keys g.<field>, parse_object({'g': value}) for scalar / list / mapping values. "
         "distinct = distinct (hint, input, channel); non-trivial = hint is not a bare leaf type or the input is text")
 TRUSTED = [
@@ -31,7 +37,11 @@ TRUSTED = [
     "to the model as an oracle (for plain scalars the oracle is cross-checked against Model/Scalar.v)",
 ]
 ASSUMPTIONS = [
-    "one key, no default, no prev_val/append, enable_path off, parser_mode yaml",
+    "one key, no prev_val/append, enable_path off, parser_mode yaml; a declared default only for scalar-like hints and assumed "
+    "to conform to the hint",
+    "registered/restricted members are opaque: what adapt_typehints(value, member) returns or that it raises is observed, and any "
+    "exception counts as a member failure (as `except Exception` in the trial loop does); they occur only as direct Union members",
+    "an int beyond the float range is not given to a modelled `float` member (Model/Ty.v's float(int) has no OverflowError branch)",
     "floats are compared as decimals (<= 15 significant digits); set items are ints and strs (canonical order)",
     "typing normalises hints (flattens nested Unions, deduplicates members): generated hints are already normal, the runner "
     "fails closed if typing changed one",
@@ -493,6 +503,95 @@ def group_cases(rng, tier):
     return cases
 
 
+# -----------------------------------------------------------------------------------------------------------------
+# cases with registered / restricted Union members (opaque: behaviour observed) and with declared defaults
+# -----------------------------------------------------------------------------------------------------------------
+OPQ = ["PositiveFloat", "PositiveInt", "ClosedUnitInterval", "NonNegativeInt", "Decimal"]
+X_MODELLED = [["int"], ["str"], ["bool"], ["float"], ["none"], ["list", ["int"]], ["lit", [["int", "1"], ["int", "2"]]]]
+BIG = 10 ** 400
+X_VALUES = [["int", "1"], ["int", "-1"], ["int", "0"], ["int", "2"], ["float", "0.5"], ["float", "2.5"], ["float", "1.0"],
+            ["int", str(BIG)], ["int", str(-BIG)], ["str", "abc"], ["str", "0.25"], ["str", "1e3"], ["str", "inf"],
+            ["str", "2"], ["str", "-3"], ["str", "null"], ["list", [["int", "1"], ["int", "2"]]],
+            ["list", [["str", "a"]]], ["bool", True], ["bool", False], ["str", "[1, 2]"], ["str", "true"], ["str", ""]]
+
+
+def mentions_float(m):
+    return m[0] == "float" or (m[0] in ("list",) and mentions_float(m[1]))
+
+
+def huge(v):
+    return (v[0] == "int" and abs(int(v[1])) > 10 ** 300) or (v[0] == "str" and v[1].lstrip("-").isdigit() and len(v[1]) > 300)
+
+
+def scalar_conforms(v, t):
+    k = t[0]
+    if k in ("int", "float", "bool", "str"):
+        return v[0] == k
+    if k == "none":
+        return v[0] == "none"
+    if k == "union":
+        return any(scalar_conforms(v, m) for m in t[1])
+    if k == "lit":
+        return v in t[1]
+    return False
+
+
+def x_case(rng, ms, dflt, v, cap):
+    ch = "argv" if (v[0] == "str" and "\n" not in v[1] and rng.random() < 0.5) else "obj"
+    n = len(ms)
+    perms = []
+    if n >= 2:
+        perms = [list(pm) for pm in itertools.permutations(range(n)) if list(pm) != list(range(n))]
+        if len(perms) > cap:
+            perms = rng.sample(perms, cap)
+    return {"kind": "x", "ms": ms, "dflt": dflt, "val": v, "ch": ch, "perms": perms}
+
+
+def x_cases(rng, tier):
+    quick = tier == "quick"
+    cases, seen = [], set()
+
+    def add(ms, dflt, v):
+        if any(huge(v) and m[0] != "opq" and mentions_float(m) for m in ms):
+            return     # Model/Ty.v's float(int) has no OverflowError (31e6cde): out of the modelled space
+        key = json.dumps([ms, dflt, v])
+        if key not in seen:
+            seen.add(key)
+            cases.append(x_case(rng, ms, dflt, v, 5 if quick else 23))
+
+    # (1) Unions with registered / restricted members, every order through the permutation sweep
+    pool = [["opq", n] for n in OPQ] + X_MODELLED
+    combos = []
+    for size in (2, 3):
+        for combo in itertools.combinations(pool, size):
+            if any(m[0] == "opq" for m in combo):
+                combos.append(list(combo))
+    rng.shuffle(combos)
+    for combo in combos[: (45 if quick else len(combos))]:
+        ms = list(combo)
+        rng.shuffle(ms)
+        vals = X_VALUES if not quick else rng.sample(X_VALUES, 9) + [["int", str(BIG)], ["str", "abc"]]
+        for v in vals:
+            add(ms, None, v)
+    # (2) declared defaults: every conforming scalar default x every scalar value, typed objects and text
+    hints = [["int"], ["float"], ["bool"], ["str"], ["union", [["int"], ["none"]]], ["union", [["int"], ["str"]]],
+             ["union", [["bool"], ["float"]]], ["lit", [["int", "1"], ["int", "2"]]], ["union", [["str"], ["none"]]]]
+    dvals = [["int", "0"], ["int", "1"], ["int", "2"], ["float", "0.0"], ["float", "1.0"], ["float", "2.0"], ["bool", False],
+             ["bool", True], ["str", "a"], ["str", "1"], ["str", "null"], ["str", "true"]]
+    vals = dvals + [["int", "-1"], ["float", "0.5"], ["str", "abc"], ["str", "1.0"], ["str", "0"]]
+    for t in hints:
+        ms = t[1] if t[0] == "union" else [t]
+        for d in [None] + [d for d in dvals if scalar_conforms(d, t)]:
+            for v in (vals if not quick or d is not None else rng.sample(vals, 6)):
+                add(ms, d, v)
+    # (3) a default on a Union with an opaque member
+    for n in ("PositiveFloat", "Decimal"):
+        for d in (["int", "1"], ["str", "abc"]):
+            for v in (["bool", True], ["float", "1.0"], ["str", "abc"], ["int", "1"], ["int", str(BIG)]):
+                add([["opq", n], ["int"], ["str"]], d, v)
+    return cases
+
+
 def generate(rng, tier):
     quick = tier == "quick"
     cap = 6 if quick else 30
@@ -533,7 +632,7 @@ def generate(rng, tier):
                 add(t, None if s is None else ["str", s])
             else:
                 add(t, ["str", rng.choice(STRS)])
-    return witness_cases(rng) + group_cases(rng, tier) + cases
+    return witness_cases(rng) + group_cases(rng, tier) + x_cases(rng, tier) + cases
 
 
 # -----------------------------------------------------------------------------------------------------------------
@@ -559,6 +658,18 @@ def oracle_closure(strs, orc):
     return out
 
 
+def x_proxy(m):
+    return NONE_PROXY if m == ["none"] else m
+
+
+def x_queries(c):
+    qs = [{"ms": c["ms"], "dflt": c["dflt"], "val": c["val"], "ch": c["ch"]}]
+    if len(c["ms"]) >= 2:
+        qs += [{"ms": [x_proxy(m)], "dflt": None, "val": c["val"], "ch": "obj"} for m in c["ms"]]
+    qs += [{"ms": [c["ms"][i] for i in pm], "dflt": c["dflt"], "val": c["val"], "ch": "obj"} for pm in c["perms"]]
+    return qs
+
+
 def observe(cases):
     n = 16
     chunks = [[] for _ in range(n)]
@@ -566,21 +677,43 @@ def observe(cases):
         chunks[i % n].append(i)
     payloads = []
     for ch in chunks:
-        qs, strs, groups = [], set(), []
+        qs, strs, groups, xqs = [], set(), [], []
         for i in ch:
             c = cases[i]
+            if c["kind"] == "x":
+                xqs.append(x_queries(c))
+                strings_of(c["val"], strs)
+                continue
             if c["kind"] == "group":
                 groups.append({"fields": c["fields"], "val": c["val"], "style": c["style"]})
                 continue
             qs += case_queries(c)
             strings_of(c["val"], strs)
-        payloads.append({"queries": qs, "strings": sorted(strs), "groups": groups, "enums": ENUMS})
+        payloads.append({"queries": qs, "strings": sorted(strs), "groups": groups, "enums": ENUMS, "xqueries": xqs})
     results = run_impl_parallel("c02_run.py", payloads, timeout=1500)
     out = [None] * len(cases)
     for ch, res in zip(chunks, results):
-        k = g = 0
+        k = g = x = 0
         for i in ch:
             c = cases[i]
+            if c["kind"] == "x":
+                xo = res["xobs"][x]
+                x += 1
+                strs = set()
+                strings_of(c["val"], strs)
+                n = len(c["ms"])
+                o = xo["obs"]
+                rec, seen_rec = [], set()
+                for name, before, after in xo["rec"]:
+                    kk = json.dumps([name, before])
+                    if kk not in seen_rec:
+                        seen_rec.add(kk)
+                        rec.append([name, before, after])
+                        strings_of(before, strs)
+                out[i] = {"obs": o[0], "parts": [y[0] == "ok" for y in o[1:1 + n]] if n >= 2 else [],
+                          "perms": [y[0] == "ok" for y in o[1 + (n if n >= 2 else 0):]], "rec": rec,
+                          "oracle": oracle_closure(strs, res["oracle"])}
+                continue
             if c["kind"] == "group":
                 out[i] = {"obs": res["groups"][g]}
                 g += 1
@@ -615,6 +748,17 @@ def g_float(r):
     return "FFin %s %s" % (g_Z(-m if sign else m), g_Z(exp))
 
 
+def g_Zbig(n):
+    """long literals are slow to read (number notation): trailing zeros as a power of ten"""
+    if abs(n) < 10 ** 40:
+        return g_Z(n)
+    k = 0
+    while n % 10 == 0:
+        n //= 10
+        k += 1
+    return "(%s * 10 ^ %d)%%Z" % (g_Z(n), k) if abs(n) < 10 ** 40 else g_Z(n * 10 ** k)
+
+
 def g_val(v):
     k = v[0]
     if k == "none":
@@ -622,7 +766,7 @@ def g_val(v):
     if k == "bool":
         return "VBool %s" % g_bool(v[1])
     if k == "int":
-        return "VInt %s" % g_Z(int(v[1]))
+        return "VInt %s" % g_Zbig(int(v[1]))
     if k == "float":
         return "VFloat (%s)" % g_float(v[1])
     if k == "str":
@@ -676,7 +820,21 @@ def g_obs(o):
     return "Rejected" if o[0] == "rej" else "Crashed"
 
 
+def g_member(m):
+    return "MOpq %s" % g_str(m[1]) if m[0] == "opq" else "MTy (%s)" % g_ty(m)
+
+
 def term(case, obs):
+    if case["kind"] == "x":
+        orc = g_list([g_pair(g_str(s), g_lres(o)) for s, o in obs["oracle"].items()], "(str * lres)")
+        tbl = g_list(["(%s, %s, %s)" % (g_str(n), g_val(b), "AErr ErrValue" if a is None else "AOk (%s)" % g_val(a))
+                      for n, b, a in obs["rec"]], "(str * val * ares)")
+        perms = g_list([g_pair(g_list(["%d%%nat" % i for i in pm], "nat"), g_bool(a)) for pm, a in zip(case["perms"], obs["perms"])],
+                       "(list nat * bool)")
+        return ("XCase {| x_ms := %s; x_dflt := %s; x_in := %s; x_oracle := %s; x_opq := %s; x_obs := %s; x_parts := %s; "
+                "x_perms := %s |}" % (g_list([g_member(m) for m in case["ms"]], "member"),
+                                      g_opt(None if case["dflt"] is None else "(%s)" % g_val(case["dflt"])), g_val(case["val"]), orc, tbl,
+                                      g_obs(obs["obs"]), g_list([g_bool(b) for b in obs["parts"]], "bool"), perms))
     if case["kind"] == "group":
         fs = g_list([g_pair(g_str(n), "(%s)" % g_ty(t)) for n, t in case["fields"]], "(str * ty)")
         return "GroupCase %s (%s) (%s)" % (fs, g_val(case["val"]), g_obs(obs["obs"]))
@@ -695,6 +853,8 @@ def term(case, obs):
 # evidence helpers
 # -----------------------------------------------------------------------------------------------------------------
 def nontrivial_key(case, obs):
+    if case["kind"] == "x":
+        return json.dumps(["x", case["ms"], case["dflt"], case["val"], case["ch"]])
     if case["kind"] == "group":
         return json.dumps(["group", case["fields"], case["val"], case["style"]])
     if case["ty"][0] in ("str", "int", "float", "bool", "none") and case["val"][0] == case["ty"][0]:
@@ -714,6 +874,10 @@ def ty_depth(t):
 
 
 def category(case, obs):
+    if case["kind"] == "x":
+        return "%s/%s/%s input/%s" % ("Union with registered member" if any(m[0] == "opq" for m in case["ms"]) else "plain hint",
+                                      "default" if case["dflt"] is not None else "no default",
+                                      "text" if case["val"][0] == "str" else "object", obs["obs"][0])
     if case["kind"] == "group":
         return "group key/%s/%s" % (case["val"][0], obs["obs"][0])
     return "%s depth %d/%s input/%s" % (case["ty"][0], ty_depth(case["ty"]),
@@ -763,14 +927,31 @@ def show_val(v):
         return "{%s}" % ", ".join("%s: %s" % (show_val(a), show_val(b)) for a, b in v[1])
     if k == "enum":
         return "%s.%s" % (v[1], v[2])
-    return "<%s>" % v[1]
+    return "<%s %s>" % (v[1], v[2])
 
 
 def show_obs(o):
     return "accepted -> %s" % show_val(o[1]) if o[0] == "ok" else ("rejected (ArgumentError)" if o[0] == "rej" else "CRASH " + o[1])
 
 
+def show_member(m):
+    return m[1] if m[0] == "opq" else show_ty(m)
+
+
 def describe(case, obs):
+    if case["kind"] == "x":
+        ms = case["ms"]
+        hint = show_member(ms[0]) if len(ms) == 1 else "Union[%s]" % ", ".join(show_member(m) for m in ms)
+        call = ("parse_args(['--k=' + %r])" % case["val"][1]) if case["ch"] == "argv" else "parse_object({'k': %s})" % show_val(case["val"])[:80]
+        d = {"type_hint": hint, "declared default": None if case["dflt"] is None else show_val(case["dflt"]), "call": call,
+             "observed": show_obs(obs["obs"])[:200]}
+        if len(ms) >= 2:
+            d["each member alone"] = ["%s: %s" % (show_member(m), "accepted" if a else "rejected") for m, a in zip(ms, obs["parts"])]
+            d["members permuted"] = ["Union[%s]: %s" % (", ".join(show_member(ms[i]) for i in pm), "accepted" if a else "rejected")
+                                     for pm, a in zip(case["perms"], obs["perms"])]
+        d["adapt_typehints(value, registered member) observed"] = ["%s <- %s: %s" % (n, show_val(b)[:40], "raised" if a is None else show_val(a)[:40])
+                                                                  for n, b, a in obs["rec"]]
+        return d
     if case["kind"] == "group":
         return {"parser": "add_argument('--g.%s', type=...) for %s%s" % ("/".join(n for n, _ in case["fields"]),
                                                                       ", ".join("%s: %s" % (n, show_ty(t)) for n, t in case["fields"]),
@@ -789,6 +970,17 @@ def describe(case, obs):
 
 def shrink(case):
     if case["kind"] == "group":
+        return
+    if case["kind"] == "x":
+        ms = case["ms"]
+        if len(ms) > 2:
+            for i in range(len(ms)):
+                ms2 = ms[:i] + ms[i + 1:]
+                yield dict(case, ms=ms2, perms=[list(pm) for pm in itertools.permutations(range(len(ms2))) if list(pm) != list(range(len(ms2)))])
+        if case["perms"]:
+            yield dict(case, perms=[])
+        if case["dflt"] is not None:
+            yield dict(case, dflt=None)
         return
     import random
     rng = random.Random(0)
